@@ -403,6 +403,37 @@ theorem average_corners_to_faces_uniform (faces : List Face) (angles cattr fattr
   rw [forRange_local_at _ (by intro a i; simp only [forEach_upd_same]; local_body)]
   simp [ht, forEach_upd_same, upd_same, forEach_sum]
 
+/-! ## vertex_normals: whole body, through the translated `interpolate_faces_to_vertices` -/
+
+/-- `vertex_normals` as read from the source, for EVERY interpolation mode: the direction of the normal at a vertex is, component by component,
+what the translated `interpolate_faces_to_vertices` computes from the face normals into a fresh (zero) output attribute -/
+theorem vertex_normals_components (vs : List V3) (faces : List Face) (area angles : Attr Rat) (fnormals : Attr V3) (mode : String) (v : Nat) :
+    C07Src.vertex_normals vs faces area angles fnormals mode v =
+      ⟨C07Src.interpolate_faces_to_vertices vs faces area angles (fun t => (fnormals t).x) (fun _ => 0) mode v,
+       C07Src.interpolate_faces_to_vertices vs faces area angles (fun t => (fnormals t).y) (fun _ => 0) mode v,
+       C07Src.interpolate_faces_to_vertices vs faces area angles (fun t => (fnormals t).z) (fun _ => 0) mode v⟩ := by
+  unfold C07Src.vertex_normals
+  simp only []
+  rw [forRange_local_at _ (by intro a i; local_body)]
+  simp only [wr_same, ite_self]
+  rfl
+
+/-- `vertex_normals(interpolation='uniform')`: the direction is the mean of the normals of the faces around the vertex -/
+theorem vertex_normals_uniform (vs : List V3) (faces : List Face) (area angles : Attr Rat) (fnormals : Attr V3) (v : Nat) (hv : v < vs.length) :
+    C07Src.vertex_normals vs faces area angles fnormals "uniform" v
+      = smul (1 / ((vertexFaces faces v).length : Rat)) (vsum ((vertexFaces faces v).map fnormals)) := by
+  rw [vertex_normals_components]
+  simp only [interpolate_faces_to_vertices_uniform _ _ _ _ _ _ _ hv]
+  obtain ⟨hx, hy, hz⟩ := vsum_components ((vertexFaces faces v).map fnormals)
+  apply V3.ext <;> simp only [smul, hx, hy, hz, List.map_map, Function.comp_def] <;> ring
+
+/-- the face normals come from `custom_fnormals`, else the cached `faces['normals']`, else `face_normals(mesh)` - in that order -/
+theorem vertex_normals_sources : C07Src.vertexNormalsSources = ["custom_fnormals", "faces[normals]", "face_normals(mesh, persistent)"] := by decide
+
+example : C07Src.vertex_normals [⟨0,0,0⟩, ⟨1,0,0⟩, ⟨0,1,0⟩, ⟨1,1,0⟩] [[0, 1, 2], [1, 3, 2]] (fun _ => 1) (fun _ => 1)
+    (fun t => if t = 0 then ⟨0, 0, 1⟩ else ⟨0, 2, 1⟩) "uniform" 1 = ⟨0, 1, 1⟩ := by
+  rw [vertex_normals_uniform _ _ _ _ _ _ (by decide)]; decide +kernel
+
 /-! ## the property theorems, restated about the TRANSLATED bodies (through the bridges) -/
 
 open Mouette.Props.C07 in
